@@ -34,6 +34,7 @@ type Build struct {
 	Registry int // generated types in the registry
 	Wall     map[string]float64
 	Race     bool
+	Dropped  []string // regenerated packages dropped because they do not compile
 }
 
 func goEnv() []string {
@@ -72,6 +73,7 @@ type buildOpts struct {
 	NeedTB    bool // also build cmd/thriftbreak test binary
 	NeedRoot  bool
 	ExtraSeed uint64 // thorough: seeded random schemas (0 = none)
+	Corpus    bool   // regenerate the schema corpus (only the wire-world checks over generated code need it)
 }
 
 // PrepareBuild copies /repo's current working tree, regenerates the schema
@@ -126,6 +128,9 @@ func PrepareBuild(o buildOpts) (*Build, error) {
 			corpora = append(corpora, corpus{"s", sroot, ss})
 		}
 	}
+	if !o.Corpus {
+		corpora = nil
+	}
 	for _, c := range corpora {
 		out := filepath.Join(genRoot, c.sub)
 		os.MkdirAll(out, 0755)
@@ -150,14 +155,43 @@ func PrepareBuild(o buildOpts) (*Build, error) {
 	if out, err := runCmd("/", env, "rsync", "-a", filepath.Join(verifDir, "overlay")+"/", b.Src+"/"); err != nil {
 		return b, fmt.Errorf("overlay: %v %s", err, out)
 	}
+	if err := patchGoMod(b.Src); err != nil {
+		return b, err
+	}
+	if o.Corpus {
+		// A regenerated package that does not compile is C06's territory, not a
+		// reason to lose this check: drop it (recorded in the evidence) and go on.
+		for round := 0; round < 6; round++ {
+			out, err := runCmd(b.Src, env, "go", "build", "./internal/zzsim/gen/...")
+			if err == nil {
+				break
+			}
+			dropped := 0
+			for _, line := range strings.Split(out+err.Error(), "\n") {
+				if i := strings.Index(line, "internal/zzsim/gen/"); i >= 0 && strings.Contains(line, ".go:") {
+					rel := line[i:]
+					if j := strings.Index(rel, ".go:"); j > 0 {
+						dir := filepath.Dir(rel[:j+3])
+						if dir != "internal/zzsim/gen/registry" {
+							if _, serr := os.Stat(filepath.Join(b.Src, dir)); serr == nil {
+								os.RemoveAll(filepath.Join(b.Src, dir))
+								b.Dropped = append(b.Dropped, dir)
+								dropped++
+							}
+						}
+					}
+				}
+			}
+			if dropped == 0 {
+				return b, fmt.Errorf("regenerated corpus does not build: %v", err)
+			}
+		}
+	}
 	n, err := writeRegistry(genRoot, filepath.Join(genRoot, "registry", "registry.go"))
 	if err != nil {
 		return b, fmt.Errorf("registry: %v", err)
 	}
 	b.Registry = n
-	if err := patchGoMod(b.Src); err != nil {
-		return b, err
-	}
 	lap("overlay")
 
 	// 5. seams
